@@ -27,7 +27,7 @@ func (a *AggOpPlanner) Process(ctx *shared.PlannerContext, in chan []shared.LogE
 
 func (a *AggOpPlanner) addValue(ctx *shared.PlannerContext, entry *shared.LogEntry, stream *aggOpStream) {
 	idx := (entry.TimestampNS - ctx.From.UnixNano()) / a.Duration.Nanoseconds()
-	if idx < 0 || idx*2 > int64(len(stream.values)) {
+	if idx < 0 || idx*2 >= int64(len(stream.values)) {
 		return
 	}
 	switch a.Func {
